@@ -539,17 +539,62 @@ def merge_history(rng, hid, extras):
                 riso.append(b)
             if rng.chance(1, 2):
                 ops.append("PUT r %d %s" % (a, gen.gen_data(rng)))
+                if rng.chance(1, 2) and not any(o.startswith("BIND r %d " % a) for o in ops):
+                    ops.append("DATA r %d" % a)      # an isolated extra whose datum has already been read
+    # a datum of the left tree that has been read already while its group lives on (another member still unread)
+    with_data = [int(o.split()[2]) for o in lops if o.startswith("PUT")]
+    grouped_with_data = [v for v in dict.fromkeys(with_data) if v in lkept]
+    if len(lkept) >= 2 and len(grouped_with_data) >= 2 and rng.chance(1, 2):
+        idx = ops.index("NEW r %d" % cap)
+        ops.insert(idx, "DATA g %d" % rng.pick(grouped_with_data))
     left = rng.pick(lkept)
     right = rroot if (not extras or rng.chance(2, 3)) else rng.pick(rkept)
-    ops += ["SNAP g", "SNAP r", "MERGE g r %d %d" % (left, right), "SNAP r", "KEYS g"]
+    twin = []
+    if not extras:
+        # the twin graph g2: a clone of g that receives the merge as explicit add/bind/put/next_id calls, in the
+        # order merge() makes them (put, then per kid in edge order: descend or next_id+add+bind, depth first)
+        t = gen.Tracker(N, cap)
+        for o in ops:
+            if o.startswith("NEW r"):
+                break
+            if o.split()[1] == "g":
+                gen.apply_op(t, o)
+        redges, rdata = {}, {}
+        for o in rops:
+            p = o.split()
+            if p[0] == "BIND":
+                redges.setdefault(int(p[2]), []).append((p[4], int(p[3])))
+            elif p[0] == "PUT":
+                rdata[int(p[2])] = p[3]
+        calls = []
+
+        def rec(lv, rv):
+            if rv in rdata:
+                calls.append("PUT g2 %d %s" % (lv, rdata[rv]))
+                t.put(lv, rdata[rv])
+            for a, to in redges.get(rv, []):
+                if a in t.edges.get(lv, {}):
+                    m = t.edges[lv][a]
+                else:
+                    m = t.next_id()
+                    calls.append("NEXT g2")
+                    calls.append("ADD g2 %d" % m)
+                    t.add(m)
+                    calls.append("BIND g2 %d %d %s" % (lv, m, a))
+                    t.bind(lv, m, a)
+                rec(m, to)
+
+        rec(left, right)
+        twin = ["CLONE g g2"] + calls + ["SNAP g2"]
+    ops += ["SNAP g", "SNAP r"] + twin + ["MERGE g r %d %d" % (left, right), "SNAP r", "KEYS g"]
     # continuation of reads after the merge: every datum of the old left vertices, twice
     if not extras:
         for v in lkept + liso:
-            ops += ["DATA g %d" % v]
+            ops += ["DATA g %d" % v, "DATA g2 %d" % v]
         for v in lkept[:3]:
-            ops += ["DATA g %d" % v]
-        ops.append("KEYS g")
-    meta = {"left": left, "right": right, "extras": bool(riso), "cap": cap}
+            ops += ["DATA g %d" % v, "DATA g2 %d" % v]
+        ops += ["KEYS g", "KEYS g2"]
+    meta = {"left": left, "right": right, "extras": bool(riso), "cap": cap, "twin": bool(twin)}
     return History(hid, N, ops, meta)
 
 
@@ -688,6 +733,21 @@ class C11(MergeProp):
             bad = latent_ok(g1)
             if bad:
                 return {"reason": "latent state after merge: " + bad, "index": i, "expected": "", "observed": il[i][:400]}
+        if h.meta.get("twin"):
+            # merge() == the same add/bind/put/next_id calls made explicitly on a clone (state and all later answers)
+            last = {}
+            for i, t, res, before, after in Walk(h, il):
+                if t[0] == "MERGE" and res == "ok":
+                    a, b = after.get("g"), after.get("g2")
+                    if a is not None and b is not None and engine.abs_state(a) != engine.abs_state(b):
+                        return {"reason": "after merge() the graph differs from the graph that received the same additions through "
+                                          "add/bind/put/next_id calls", "index": i,
+                                "expected": str(b)[:700], "observed": str(a)[:700]}
+                if t[0] in ("DATA", "KEYS") and t[1] == "g2" and i > 0:
+                    prev = il[i - 1].split(" | ")[0].split(" -> ", 1)[1]
+                    if prev != res and not (il[i - 1].endswith("PANIC") and res == "PANIC"):
+                        return {"reason": "%s answers %s after merge() and %s on the twin built by explicit calls" % (
+                            h.ops[i - 1], prev, res), "index": i - 1, "expected": res, "observed": prev}
         merged = False
         gone_ok = set()
         for i, t, res, before, after in Walk(h, il):
@@ -886,6 +946,8 @@ def rnd_ws(rng, maxlen=2):
 
 def rnd_gap(rng, fancy):
     s = rnd_ws(rng)
+    if fancy and rng.chance(1, 12):
+        s += rng.pick(["\u00a0", "\u2003", "\u3000", "\u0085"])      # Unicode White_Space is trimmed like the ASCII blanks
     if fancy and rng.chance(1, 6):
         s += "# " + rng.pick(["note", "ADD(9);", "x,y)", ""]) + "\n" + rnd_ws(rng, 1)
     return s
@@ -907,7 +969,7 @@ def script_program(rng, cap, n):
             direct.append("ADD h %d" % v)
             t.add(v)
         elif k == "addvar":
-            name = rng.pick(["x", "ν1", "foo", "v%d" % nvars])
+            name = rng.pick(["x", "ν1", "1", "foo", "νfoo", "v%d" % nvars])
             if name in vars_:
                 v = vars_[name]
             else:
